@@ -22,63 +22,67 @@ var invalidExprs = []string{"[1 2]", "(1 2)", "f(1 2)", "{a = 1 b = 2}", "[for x
 func TestC15_Injection(t *testing.T) {
 	hx.Run(t, "C15", "Injection", 8000,
 		"negative grammar oracle: a valid configuration (G-EXPR expressions incl. for / object-for keys, calls, indexes, conditionals, templates with interpolations and directives, heredocs) in which the source text of one randomly chosen node in expression position (any depth) is replaced by a text that is not an expression in any context (balanced bracket constructs with a defect inside: `[1 2]`, `f(1 2)`, `{a = 1 b = 2}`, ...); oracle: ParseConfig must report at least one error diagnostic (an error inside a nested construct must not get lost in recovery), deterministic, in-bounds diagnostics, and hclwrite.ParseConfig must not panic on the same input; non-trivial = the replaced node is nested >= 2 levels below an attribute; distinct by input",
-		func(c *hx.Case) {
-			t := c.T
-			sc := gen.DrawScope(t, gen.ScopeOpts{Nulls: 10})
-			tree := drawConfig(t, sc, 2, gen.ExprOpts{HostileLits: true, Budget: 14, MaxDepth: 4})
-			src, _ := render.File(tree, rchooser{t}, drawBodyOpts(t))
-			f, diags := hclsyntax.ParseConfig([]byte(src), "t.hcl", hcl.InitialPos)
-			if diags.HasErrors() {
-				c.Failf("parse-error", "%s", diagStr(diags))
-			}
-			ranges := expressionRanges(c, []byte(src), f.Body.(*hclsyntax.Body))
-			if len(ranges) == 0 {
-				c.Class("no_expression")
-				c.Done(false, "")
-				return
-			}
-			r := ranges[rapid.IntRange(0, len(ranges)-1).Draw(t, "which")]
-			bad := rapid.SampledFrom(invalidExprs).Draw(t, "bad")
-			depth := 0
-			for _, o := range ranges {
-				if o != r && o.Start.Byte <= r.Start.Byte && o.End.Byte >= r.End.Byte {
-					depth++
-				}
-			}
-			mut := src[:r.Start.Byte] + bad + src[r.End.Byte:]
-			c.Set("valid_source", src)
-			c.Set("replaced", src[r.Start.Byte:r.End.Byte])
-			c.SetBytes("input", []byte(mut))
-			c.Class("injected_" + bad)
-			var mf *hcl.File
-			var mdiags hcl.Diagnostics
-			c.Guard("ParseConfig", func() { mf, mdiags = hclsyntax.ParseConfig([]byte(mut), "t.hcl", hcl.InitialPos) })
-			if mf == nil || mf.Body == nil {
-				c.Failf("nil-result", "ParseConfig returned a nil file or body")
-			}
-			checkDiags(c, "ParseConfig", mdiags, len(mut), hcl.InitialPos)
-			if !mdiags.HasErrors() {
-				c.Failf("error-not-reported", "the sub-expression %q at %s was replaced by %q, which is not an expression, and ParseConfig reports no error", src[r.Start.Byte:r.End.Byte], r, bad)
-			}
-			_, d2 := hclsyntax.ParseConfig([]byte(mut), "t.hcl", hcl.InitialPos)
-			if diagsDump(d2) != diagsDump(mdiags) {
-				c.Failf("nondeterministic", "ParseConfig reported different diagnostics for the same input")
-			}
-			var wd hcl.Diagnostics
-			c.Guard("hclwrite.ParseConfig", func() {
-				var wf *hclwrite.File
-				wf, wd = hclwrite.ParseConfig([]byte(mut), "t.hcl", hcl.InitialPos)
-				if !wd.HasErrors() {
-					_ = wf.Bytes()
-				}
-			})
-			if !wd.HasErrors() {
-				c.Failf("error-not-reported", "hclwrite.ParseConfig accepts the input with the invalid sub-expression %q", bad)
-			}
-			exerciseBody(c, "native", mf.Body, len(mut), false, 0)
-			if depth >= 2 {
-				c.Class("nested_deeply")
-			}
-			c.Done(depth >= 2, mut)
-		})
+		caseC15Injection)
 }
+
+func caseC15Injection(c *hx.Case) {
+	t := c.T
+	sc := gen.DrawScope(t, gen.ScopeOpts{Nulls: 10})
+	tree := drawConfig(t, sc, 2, gen.ExprOpts{HostileLits: true, Budget: 14, MaxDepth: 4})
+	src, _ := render.File(tree, rchooser{t}, drawBodyOpts(t))
+	f, diags := hclsyntax.ParseConfig([]byte(src), "t.hcl", hcl.InitialPos)
+	if diags.HasErrors() {
+		c.Failf("parse-error", "%s", diagStr(diags))
+	}
+	ranges := expressionRanges(c, []byte(src), f.Body.(*hclsyntax.Body))
+	if len(ranges) == 0 {
+		c.Class("no_expression")
+		c.Done(false, "")
+		return
+	}
+	r := ranges[rapid.IntRange(0, len(ranges)-1).Draw(t, "which")]
+	bad := rapid.SampledFrom(invalidExprs).Draw(t, "bad")
+	depth := 0
+	for _, o := range ranges {
+		if o != r && o.Start.Byte <= r.Start.Byte && o.End.Byte >= r.End.Byte {
+			depth++
+		}
+	}
+	mut := src[:r.Start.Byte] + bad + src[r.End.Byte:]
+	c.Set("valid_source", src)
+	c.Set("replaced", src[r.Start.Byte:r.End.Byte])
+	c.SetBytes("input", []byte(mut))
+	c.Class("injected_" + bad)
+	var mf *hcl.File
+	var mdiags hcl.Diagnostics
+	c.Guard("ParseConfig", func() { mf, mdiags = hclsyntax.ParseConfig([]byte(mut), "t.hcl", hcl.InitialPos) })
+	if mf == nil || mf.Body == nil {
+		c.Failf("nil-result", "ParseConfig returned a nil file or body")
+	}
+	checkDiags(c, "ParseConfig", mdiags, len(mut), hcl.InitialPos)
+	if !mdiags.HasErrors() {
+		c.Failf("error-not-reported", "the sub-expression %q at %s was replaced by %q, which is not an expression, and ParseConfig reports no error", src[r.Start.Byte:r.End.Byte], r, bad)
+	}
+	_, d2 := hclsyntax.ParseConfig([]byte(mut), "t.hcl", hcl.InitialPos)
+	if diagsDump(d2) != diagsDump(mdiags) {
+		c.Failf("nondeterministic", "ParseConfig reported different diagnostics for the same input")
+	}
+	var wd hcl.Diagnostics
+	c.Guard("hclwrite.ParseConfig", func() {
+		var wf *hclwrite.File
+		wf, wd = hclwrite.ParseConfig([]byte(mut), "t.hcl", hcl.InitialPos)
+		if !wd.HasErrors() {
+			_ = wf.Bytes()
+		}
+	})
+	if !wd.HasErrors() {
+		c.Failf("error-not-reported", "hclwrite.ParseConfig accepts the input with the invalid sub-expression %q", bad)
+	}
+	exerciseBody(c, "native", mf.Body, len(mut), false, 0)
+	if depth >= 2 {
+		c.Class("nested_deeply")
+	}
+	c.Done(depth >= 2, mut)
+}
+
+func FuzzC15_Injection(f *testing.F) { hx.Fuzz(f, "C15", "Injection", caseC15Injection) }
